@@ -89,7 +89,8 @@ def monitored(cls):
 
 def snap(c):
     d = c.__dict__
-    return {'index': list(d['index']), 'attrs': list(d['_attributes']),
+    return {'index': list(d['index']), 'attrs': list(d['_attributes']), 'span': repr(list(d['span'])), 'class_names': repr(getattr(type(c), 'NAMES', None)),
+            'plain': {k: repr(v) for k, v in d.items() if k in ('names', 'lags', 'leads', 'strict', 'memo', 'note', 'check', 'endogenous')},
             'series': {k: (np.array(d.get('_' + k)).copy(), np.asarray(d.get('_' + k)).dtype, np.asarray(d.get('_' + k)).shape) for k in d['index']},
             'keys': sorted(k for k in d if not k.startswith('v_'))}
 
@@ -321,10 +322,12 @@ def step(ctx, c, twin, dtypes, hist, kind, n, span, op, optag, opval_factory, ta
     ctx.seen('op_outcomes', f'{op}:{outcome}')
     case = {'kind': kind, 'n': n, 'history': hist}
     after = snap(c)
-    if op in ('item', 'replace') and target not in before['index']:
-        # an unknown name must be refused by the variable-assignment paths, not turned into something else
+    if op in ('item', 'replace', 'label', 'lslice') and target not in before['index']:
+        # an unknown name - including the name of a non-variable attribute, property or class attribute - must be refused by the
+        # variable-assignment paths, not turned into something else
         ctx.count('unknown_name_assignments')
-        if outcome == 'ok' or after['attrs'] != before['attrs'] or after['keys'] != before['keys'] or not series_same(before, after):
+        if outcome == 'ok' or after['attrs'] != before['attrs'] or after['keys'] != before['keys'] or not series_same(before, after) or \
+                any(after[k] != before[k] for k in ('span', 'class_names', 'plain', 'index')):
             ctx.violation('unknown-name-accepted', f'{kind}: {desc} for a name that is not a variable -> {outcome}; attributes {before["attrs"]} -> {after["attrs"]}', case)
             return False
     text_into_numeric = isinstance(operand, np.ndarray) and operand.dtype.kind in 'USO' and target in before['index'] and before['series'][target][1].kind in 'fiub'
@@ -396,10 +399,11 @@ def choose(rng, c, n, span, op):
         return (rng.choice(names + ['ZZ', 'Xx']) if names else 'ZZ'), None
     if op == 'item':
         return rng.choice(names + ['ZZ']) if names else 'ZZ', None
+    not_variables = ['ZZ', 'index', 'span', 'names', 'NAMES', 'values', 'memo', 'strict', 'size', 'note', 'lags', 'copy']
     if op == 'label':
-        return (rng.choice(names) if names else 'A'), rng.choice(span + [1999])
+        return (rng.choice(names + not_variables[:rng.choice([0, 0, 12])]) if names else 'A'), rng.choice(span + [1999])
     if op == 'lslice':
-        return (rng.choice(names) if names else 'A'), (rng.choice(span + [None]), rng.choice(span + [None]), rng.choice([None, 1, 2]))
+        return (rng.choice(names + not_variables[:rng.choice([0, 0, 12])]) if names else 'A'), (rng.choice(span + [None]), rng.choice(span + [None]), rng.choice([None, 1, 2]))
     if op == 'add_attr':
         return rng.choice(['note', 'A', 'span', 'memo']), None
     if op == 'newattr':
